@@ -51,8 +51,30 @@ def main():
                                 sites.append(qual)
                                 if qual not in covered:
                                     bad.append(f"{qual}:{n.lineno}: {ast.unparse(n)[:80]}")
-    out = {"status": "ok" if not bad else "violation", "obligations": max(1, len(sites)), "discharged": len(sites) - len(bad) if sites else 1,
+    # a registered tool body is reachable ONLY through Tool.execute: the evaluator's allow-list tables cannot gain entries, and the callable
+    # given to register_function flows nowhere but into the SimpleTool it builds
+    from pyvc.scan_c01 import table_frame_violations
+    bad2 = list(table_frame_violations())
+    mt = ast.parse(open(os.path.join(REPO, "operon_ai/organelles/mitochondria.py"), encoding="utf-8").read())
+    for cls in [n for n in mt.body if isinstance(n, ast.ClassDef) and n.name == "Mitochondria"]:
+        for fn in [n for n in cls.body if isinstance(n, ast.FunctionDef) and n.name == "register_function"]:
+            inside = set()
+            for c in ast.walk(fn):
+                if isinstance(c, ast.Call) and ast.unparse(c.func).split(".")[-1] == "SimpleTool":
+                    for x in ast.walk(c):
+                        inside.add(id(x))
+            for x in ast.walk(fn):
+                if isinstance(x, ast.Name) and x.id == "func" and isinstance(x.ctx, ast.Load) and id(x) not in inside:
+                    bad2.append(f"operon_ai/organelles/mitochondria.py:{x.lineno}: register_function uses the tool body `func` outside the SimpleTool it builds")
+    n_sites = max(1, len(sites)) + 1
+    out = {"status": "ok" if not (bad or bad2) else "violation", "obligations": n_sites, "discharged": n_sites - len(bad) - (1 if bad2 else 0),
            "sites": sites}
+    if bad2 and not bad:
+        out["detail"] = "a tool body becomes reachable without the capability gate: " + "; ".join(bad2[:3])
+        os.makedirs(os.path.join(ROOT, "replays"), exist_ok=True)
+        json.dump({"property": "C03", "obligation": "C03/scan[tool-bodies-only-through-execute]", "sites": bad2,
+                   "note": "structural obligation; see the bounded stand-in for a failing input"}, open(os.path.join(ROOT, "replays/C03-scan.json"), "w"), indent=1)
+        out["replay"] = "replays/C03-scan.json"
     if bad:
         out["detail"] = "tool execution site outside every C03 contract: " + "; ".join(bad)
         os.makedirs(os.path.join(ROOT, "replays"), exist_ok=True)
